@@ -10,7 +10,7 @@ git checkout -q --detach "$HEAD" || exit 2
 export CARGO_NET_OFFLINE=true
 if ! git apply --check "$MD/patch.diff" 2>/dev/null; then echo "CONFIRM patch_applies=no"; exit 1; fi
 cp "$MD/demo.rs" bigtools/tests/demo_mutant.rs 2>/dev/null
-run_demo() { if [ -f "$MD/demo.rs" ]; then timeout 600 cargo test --offline -p bigtools --test demo_mutant >$WT/../$(basename $MD)-demo.log 2>&1; else timeout 600 bash "$MD/demo.sh" >$WT/../$(basename $MD)-demo.log 2>&1; fi; echo $?; }
+run_demo() { if [ -f "$MD/demo.rs" ]; then timeout 600 cargo test --offline -p bigtools --test demo_mutant >$WT/../$(basename $MD)-demo.log 2>&1; else timeout 1500 bash "$MD/demo.sh" >$WT/../$(basename $MD)-demo.log 2>&1; fi; echo $?; }
 clean=$(run_demo)
 git apply "$MD/patch.diff"
 mut=$(run_demo)
